@@ -23,6 +23,15 @@ if TYPE_CHECKING:
 
 logger = Logger(__name__)
 JMC_CERT_FILE_NAME = "jmc.txt"
+DEFAULT_CERT_CONFIG = {
+    "LOAD": "__load__",
+    "TICK": "__tick__",
+    "PRIVATE": "__private__",
+    "VAR": "__variable__",
+    "INT": "__int__",
+    "STORAGE": "__storage__",
+}
+"""Names used when jmc.txt does not exist yet or lacks a key (never the names of an earlier compilation)"""
 
 
 def compile_jmc(config: "Configuration", debug: bool = False) -> None:
@@ -175,8 +184,10 @@ def read_cert(
     """
     namespace_folder = Path(config.output) / "data" / config.namespace
     cert_file = namespace_folder / JMC_CERT_FILE_NAME
-    old_cert_config = get_cert()
-    if namespace_folder.is_dir() or _test_file is not None:
+    old_cert_config = dict(DEFAULT_CERT_CONFIG)
+    is_existing = namespace_folder.is_dir() or _test_file is not None
+    cert_config: dict[str, str] = {}
+    if is_existing:
         if not cert_file.is_file() and _test_file is None:
             raise JMCBuildError(
                 f"{JMC_CERT_FILE_NAME} file not found in namespace folder.\n To prevent accidental overriding of your datapack please delete the namespace folder yourself."
@@ -190,17 +201,15 @@ def read_cert(
             cert_config = string_to_cert_config(cert_str)
         except ValueError:
             cert_config = {}
-        DataPack.load_name = cert_config.get("LOAD", old_cert_config["LOAD"])
-        DataPack.tick_name = cert_config.get("TICK", old_cert_config["TICK"])
-        DataPack.private_name = cert_config.get("PRIVATE", old_cert_config["PRIVATE"])
-        DataPack.var_name = cert_config.get("VAR", old_cert_config["VAR"])
-        DataPack.int_name = cert_config.get("INT", old_cert_config["INT"])
-        DataPack.storage_name = cert_config.get("STORAGE", old_cert_config["STORAGE"])
-        cert_config = get_cert()
-        if _test_file is None:
-            return True, cert_config, cert_file
-    else:
-        cert_config = old_cert_config
+    DataPack.load_name = cert_config.get("LOAD", old_cert_config["LOAD"])
+    DataPack.tick_name = cert_config.get("TICK", old_cert_config["TICK"])
+    DataPack.private_name = cert_config.get("PRIVATE", old_cert_config["PRIVATE"])
+    DataPack.var_name = cert_config.get("VAR", old_cert_config["VAR"])
+    DataPack.int_name = cert_config.get("INT", old_cert_config["INT"])
+    DataPack.storage_name = cert_config.get("STORAGE", old_cert_config["STORAGE"])
+    cert_config = get_cert()
+    if is_existing and _test_file is None:
+        return True, cert_config, cert_file
     if _test_file is None:
         make_cert(cert_config, cert_file)
     return False, cert_config, cert_file
